@@ -313,7 +313,9 @@ def layer_pe(repo, ci, name):
       if kk in ("pool_size", "kernel_size", "strides", "dilation_rate"):
         me.attrs[kk] = vv
       else:
-        me.attrs.setdefault(kk, vv)
+        own, fn_ = me.cls.find_method(kk)
+        if fn_ is None or kk not in own.properties:
+          me.attrs.setdefault(kk, vv)
     # the Keras parent serialises what it was constructed with
     me.attrs["__base_config__"] = dict(k)
     if a and isinstance(a[0], Obj):
@@ -326,6 +328,9 @@ def layer_pe(repo, ci, name):
                    ("padding", "valid"), ("strides", (1, 1)),
                    ("groups", 1), ("output_padding", None),
                    ("filters", None)):
+      own, fn_ = me.cls.find_method(kk)
+      if fn_ is not None and kk in own.properties:
+        continue     # the class computes it (RNN wrappers ask their cell)
       me.attrs.setdefault(kk, vv)
 
   def base_get_config(pe_, a, k):
@@ -363,6 +368,7 @@ def layer_pe(repo, ci, name):
 
 def rule_layer_roundtrip(rep, repo, table):
   qmod = repo.module("qkeras.quantizers")
+  nsparse = [0]
   n = 0
   skipped = {}
   for name, cref in sorted(table.items()):
@@ -514,8 +520,13 @@ def rule_layer_roundtrip(rep, repo, table):
                 "%s rebuilt from its own get_config() builds its inner "
                 "batch normalisation with %r, the original with %r" % (
                     name, o2_, o1_), loc=loc)
+    def held_main(o_, a_):
+      try:
+        return pe.getattr(o_, a_)      # (a property on the RNN wrappers)
+      except PyRaise:
+        return None
     for a in attrs:
-      q1, q2 = o.attrs.get(a), o2.attrs.get(a)
+      q1, q2 = held_main(o, a), held_main(o2, a)
       if a == "activation" and not isinstance(q1, Obj):
         continue
       rep.check(_same_function(pe, q1, q2), "R5", unit,
@@ -526,7 +537,62 @@ def rule_layer_roundtrip(rep, repo, table):
                     name, a, cfg.get(a.replace("_internal", ""),
                                      cfg.get("activation"))),
                 loc=loc)
+    # sparse configurations: each quantizer-bearing option on its own (what
+    # one option's serialisation must not make depend on another one)
+    if name in ("QActivation", "QAdaptiveActivation"):
+      continue
+    roles = [p_ for p_ in qparams] + (["activation"] if "activation" in
+                                      params else [])
+    for only in roles:
+      if only not in kw:
+        continue
+      kw1 = {k_: v_ for k_, v_ in kw.items()
+             if k_ == only or (k_ not in roles)}
+      scfg = "%s(only %s set)" % (name, only)
+      try:
+        o_s = pe.call(cref, [], dict(kw1))
+        cfg_s = pe.call(pe.getattr(o_s, "get_config"), [], {})
+        cfg_s2 = {k: (v.attrs["obj"] if isinstance(v, Mock) and
+                      v.name == "serialized" else v)
+                  for k, v in cfg_s.items()}
+        if ffn is not None:
+          o_s2 = pe.call_func(Func(ffn, fowner.module, [], "from_config",
+                                   cref, fowner), [dict(cfg_s2)], {})
+        else:
+          o_s2 = pe.call(cref, [], {k: v for k, v in cfg_s2.items()
+                                    if k in params or ci.init_params()[2]})
+      except PyRaise as e:
+        rep.fail("R5", unit, "rebuild-from-own-config-raises",
+                 "%s rebuilt from its own get_config() raises %s" % (scfg, e),
+                 loc=loc, instance=scfg)
+        continue
+      except Unsupported:
+        continue
+      if not isinstance(o_s2, Obj):
+        continue
+      nsparse[0] += 1
+      a = only + "_internal" if only != "activation" else "activation"
+      def held(o_, a_):
+        try:
+          return pe.getattr(o_, a_)    # (a property on the RNN wrappers)
+        except PyRaise:
+          return None
+      q1, q2 = held(o_s, a), held(o_s2, a)
+      rep.check(isinstance(q1, Obj) and _same_function(pe, q1, q2), "R5",
+                unit, "quantizer-changed-by-config-round-trip:" + a,
+                "%s: rebuilt from its own get_config() the layer applies %r "
+                "as %s (config entry: %r)" % (
+                    scfg, q2, a, cfg_s.get(only)), loc=loc, instance=scfg)
+      others = [r_ + "_internal" if r_ != "activation" else "activation"
+                for r_ in roles if r_ != only]
+      rep.check(all(not isinstance(held(o_s2, x_), Obj) or
+                    isinstance(held(o_s, x_), Obj) for x_ in others),
+                "R5", unit,
+                "quantizer-appears-after-round-trip",
+                "%s: the rebuilt layer applies quantizers the original did "
+                "not have" % scfg, loc=loc, instance=scfg)
   rep.extra["layer_roundtrips"] = n
+  rep.extra["sparse_layer_roundtrips"] = nsparse[0]
   rep.extra["layer_roundtrips_skipped"] = skipped
   if n < 18:
     raise AnalysisError("instance-count only %d layer classes round-tripped "
